@@ -281,7 +281,7 @@ func newExec(P *Program, h *HarnessSpec, opts RunOpts) (*Exec, error) {
 		unwind: 40, maxSteps: 2000000, maxPaths: 200000, mergeSet: map[string]bool{},
 		tier: opts.Tier, harness: h.Name, initDone: map[*ssa.Package]bool{}, initAllow: map[string]bool{},
 		vioSeen: map[string]bool{}, reach: map[string]int{}, reachModels: map[string][]InputVal{},
-		funcs: map[string]bool{}, cuts: map[string]int{}, assumes: map[string]bool{}, maxViolations: 8,
+		funcs: map[string]bool{}, cuts: map[string]int{}, assumes: map[string]bool{}, maxViolations: 24,
 		maxAlloc: 1 << 17, smallBuf: 24, regions: map[*ssa.BasicBlock]regionInfo{},
 	}
 	ex.noIfConv = h.NoIfConv
